@@ -3,6 +3,7 @@ package main
 import (
 	"fmt"
 	"os"
+	"regexp"
 	"go/constant"
 	"go/token"
 	"go/types"
@@ -176,6 +177,7 @@ type Interp struct {
 	inPure bool
 	schedTrace []int
 	selTrace   []int
+	hostRegexps map[*Cell]*regexp.Regexp
 }
 
 type knownRegion struct {
@@ -251,6 +253,7 @@ func (in *Interp) resetPath(prefix []int) {
 	in.inPure = false
 	in.schedTrace = nil
 	in.selTrace = nil
+	in.hostRegexps = map[*Cell]*regexp.Regexp{}
 }
 
 func (in *Interp) assumeTerm(c *Term) {
